@@ -113,6 +113,7 @@ def run_shard(tier, shard, res: Result):
             faults["auth-verdict"] = verdict
         realm = rng.choice([b"example.org", b"example.org", None, b"", b"other realm"])
         res.observe("digest-realm-in-challenge", repr(realm))
+        shuffle = rng.random() < 0.6
         starttls = rng.random() < 0.25
         if starttls:
             # what counts is what the server announces once TLS is up; before that it may
@@ -128,6 +129,7 @@ def run_shard(tier, shard, res: Result):
             srv = ms.Server(users=users, sasl=pre, post_tls_caps="absent" if post is None else post,
                             faults=faults, starttls=True, digest_realm=realm,
                             encodings=rng.choice(["quoted", "literal", "mixed"]))
+            srv.digest_shuffle, srv.rng = shuffle, random.Random(rng.randrange(1 << 30))
             sess = mslab.Session(srv)
             if i % 2:
                 out = sess.call("connect", login, pw, authz, True, authmech)
@@ -138,6 +140,7 @@ def run_shard(tier, shard, res: Result):
             srv = ms.Server(users=users, sasl=announced, faults=faults, starttls=False,
                             digest_realm=realm,
                             encodings=rng.choice(["quoted", "literal", "mixed"]))
+            srv.digest_shuffle, srv.rng = shuffle, random.Random(rng.randrange(1 << 30))
             sess = mslab.Session(srv)
             if rng.random() < 0.3:
                 # the same Client object was used before, against a server that announced
